@@ -35,7 +35,7 @@ def gen_weights(gen, n):
         w = 1 + pos % 250
     elif dist == "sindex":
         w = (pos * 7 + gen.get("seed", 0)) % 511 - 255
-    elif dist in ("pal2", "pal4", "pal16", "pal32"):
+    elif dist in ("pal2", "pal4", "pal16", "pal32", "pal33"):
         k = int(dist[3:])
         vals = rs.choice(np.arange(-255, 256), size=k, replace=False)
         p = rs.dirichlet(np.ones(k) * 0.7)
